@@ -261,8 +261,8 @@ theorem toStr_fn_bridge (cond : Cond) (pre init body post after : List Stmt)
     (hbody : sameVars [4, 0, 3] body GoModel.loop_to_str.body = true)
     (hpost : sameVars [0, 3] post GoModel.loop_to_str.post = true)
     (hafter : sameVars [4] after GoModel.loop_to_str.after = true)
-    (v : Int) (hv : 0 ≤ v ∧ v ≤ maxInt64) (ρ : Env) (h0 : ρ 0 = v) :
-    goToStrLoop hexaArrs cond body post after (v.natAbs + 1) (runEnv hexaArrs (runEnv hexaArrs ρ pre) init) []
+    (v : Int) (hv : 0 ≤ v ∧ v ≤ maxInt64) (ρ : Env) (h0 : ρ 0 = v) (fuel : Nat) (hf : v.natAbs ≤ fuel) :
+    goToStrLoop hexaArrs cond body post after (fuel + 1) (runEnv hexaArrs (runEnv hexaArrs ρ pre) init) []
       = toStr v := by
   unfold maxInt64 at hv
   have q0 : runEnv hexaArrs ρ pre 0 = v := by
@@ -279,7 +279,7 @@ theorem toStr_fn_bridge (cond : Cond) (pre init body post after : List Stmt)
     rw [sameVars_eq hinit hexaArrs _ 3 (by simp)]
     simp only [GoModel.loop_to_str.init, runEnv, upd, Nat.reduceEqDiff, if_false]; exact q2
   unfold toStr
-  exact toStr_loop_bridge cond body post after hcond hbody hpost hafter v.natAbs (-v) _ [] (by omega) (by omega)
+  exact toStr_loop_bridge cond body post after hcond hbody hpost hafter fuel (-v) _ [] (by omega) (by omega)
     (by unfold minInt64; omega) e0 e2
 
 end GoBridge
